@@ -104,12 +104,14 @@ template <class G> struct C05 {
     X.rplus(t, Ja, Jb);
     judgeJ("J_rplus_wrt_X", Ja, ref::fd_jacobian(SG, SG, [&](const ref::Mat& M) { return ref::Mat(M * Et); }, Mx, h, L), SG, SG, L, key, dd);
     judgeJ("J_rplus_wrt_t", Jb, ref::fd_jacobian(ST, SG, [&](const ref::Mat& v) { return ref::Mat(Mx * g.exp(ref::Vec(v.col(0)))); }, col(tl), h, L), SG, ST, L, key, dd);
+    { J A1, B1; X.rplus(t, A1); X.rplus(t, {}, B1); sameJ("J_rplus_wrt_X(requested alone)", A1, Ja, key); sameJ("J_rplus_wrt_t(requested alone)", B1, Jb, key); }
     X.plus(t, Ka, Kb); sameJ("J_plus_wrt_X=rplus", Ka, Ja, key); sameJ("J_plus_wrt_t=rplus", Kb, Jb, key);
     t.rplus(X, Kb, Ka); sameJ("J_t.rplus(X)_wrt_X", Ka, Ja, key); sameJ("J_t.rplus(X)_wrt_t", Kb, Jb, key);
     // lplus
     X.lplus(t, Ja, Jb);
     judgeJ("J_lplus_wrt_X", Ja, ref::fd_jacobian(SG, SG, [&](const ref::Mat& M) { return ref::Mat(Et * M); }, Mx, h, L), SG, SG, L, key, dd);
     judgeJ("J_lplus_wrt_t", Jb, ref::fd_jacobian(ST, SG, [&](const ref::Mat& v) { return ref::Mat(g.exp(ref::Vec(v.col(0))) * Mx); }, col(tl), h, L), SG, ST, L, key, dd);
+    { J A1, B1; X.lplus(t, A1); X.lplus(t, {}, B1); sameJ("J_lplus_wrt_X(requested alone)", A1, Ja, key); sameJ("J_lplus_wrt_t(requested alone)", B1, Jb, key); }
     t.lplus(X, Kb, Ka); sameJ("J_t.lplus(X)_wrt_X", Ka, Ja, key); sameJ("J_t.lplus(X)_wrt_t", Kb, Jb, key);
     t.plus(X, Kb, Ka); sameJ("J_t.plus(X)_wrt_X", Ka, Ja, key); sameJ("J_t.plus(X)_wrt_t", Kb, Jb, key);
     if (xa.theta != 0 && ta.theta != 0 && distinct.insert(key).second) ++R.nontrivial;
@@ -129,9 +131,11 @@ template <class G> struct C05 {
     X.compose(Y, Ja, Jb);
     judgeJ("J_compose_wrt_X", Ja, ref::fd_jacobian(SG, SG, [&](const ref::Mat& M) { return ref::Mat(M * My); }, Mx, h, L), SG, SG, L, key, dd);
     judgeJ("J_compose_wrt_Y", Jb, ref::fd_jacobian(SG, SG, [&](const ref::Mat& M) { return ref::Mat(Mx * M); }, My, h, L), SG, SG, L, key, dd);
+    { J A1, B1; X.compose(Y, A1); X.compose(Y, {}, B1); sameJ("J_compose_wrt_X(requested alone)", A1, Ja, key); sameJ("J_compose_wrt_Y(requested alone)", B1, Jb, key); }
     X.between(Y, Ja, Jb);
     judgeJ("J_between_wrt_X", Ja, ref::fd_jacobian(SG, SG, [&](const ref::Mat& M) { return ref::Mat(g.inv(M) * My); }, Mx, h, L), SG, SG, L, key, dd);
     judgeJ("J_between_wrt_Y", Jb, ref::fd_jacobian(SG, SG, [&](const ref::Mat& M) { return ref::Mat(Mxi * M); }, My, h, L), SG, SG, L, key, dd);
+    { J A1, B1; X.between(Y, A1); X.between(Y, {}, B1); sameJ("J_between_wrt_X(requested alone)", A1, Ja, key); sameJ("J_between_wrt_Y(requested alone)", B1, Jb, key); }
     // rminus / lminus: only inside the injectivity radius of the relative transform
     bool ok = false;
     ref::Vec r0 = g.log(Myi * Mx, &ok);
@@ -140,6 +144,7 @@ template <class G> struct C05 {
       X.rminus(Y, Ja, Jb);
       judgeJ("J_rminus_wrt_X", Ja, ref::fd_jacobian(SG, ST, [&](const ref::Mat& M) { return col(g.log_seeded(Myi * M, r0)); }, Mx, h, Lr), ST, SG, Lr, key, dd);
       judgeJ("J_rminus_wrt_Y", Jb, ref::fd_jacobian(SG, ST, [&](const ref::Mat& M) { return col(g.log_seeded(g.inv(M) * Mx, r0)); }, My, h, Lr), ST, SG, Lr, key, dd);
+    { J A1, B1; X.rminus(Y, A1); X.rminus(Y, {}, B1); sameJ("J_rminus_wrt_X(requested alone)", A1, Ja, key); sameJ("J_rminus_wrt_Y(requested alone)", B1, Jb, key); }
       X.minus(Y, Ka, Kb); sameJ("J_minus_wrt_X=rminus", Ka, Ja, key); sameJ("J_minus_wrt_Y=rminus", Kb, Jb, key);
       R.count("relative_rotation_inside");
     } else { ++R.skipped; R.count("relative_rotation_outside_domain"); }
@@ -150,6 +155,7 @@ template <class G> struct C05 {
       X.lminus(Y, Ja, Jb);
       judgeJ("J_lminus_wrt_X", Ja, ref::fd_jacobian(SG, ST, [&](const ref::Mat& M) { return col(g.log_seeded(M * Myi, l0)); }, Mx, h, Ll), ST, SG, Ll, key, dd);
       judgeJ("J_lminus_wrt_Y", Jb, ref::fd_jacobian(SG, ST, [&](const ref::Mat& M) { return col(g.log_seeded(Mx * g.inv(M), l0)); }, My, h, Ll), ST, SG, Ll, key, dd);
+    { J A1, B1; X.lminus(Y, A1); X.lminus(Y, {}, B1); sameJ("J_lminus_wrt_X(requested alone)", A1, Ja, key); sameJ("J_lminus_wrt_Y(requested alone)", B1, Jb, key); }
     } else ++R.skipped;
     if (xa.theta != 0 && ya.theta != 0 && distinct.insert(key).second) ++R.nontrivial;
   }
